@@ -32,7 +32,8 @@ FLOORS = {'if_cases': 500, 'poisoned_unselected': 200, 'andor_cases': 500,
           'not_cases': 50, 'spy_calls': 1000, 'omitted_else': 20,
           'reassigned_cases': 100, 'foreign_namespace_evaluations': 10,
           'long_range_cases': 32, 'blank_only_cases': 12,
-          'extracted_models': 20, 'same_rectangle_two_sheets_cases': 100, 'empty_text_prelude_evaluations': 6}
+          'extracted_models': 20, 'same_rectangle_two_sheets_cases': 100,
+          'deep_nesting_cases': 80, 'empty_text_prelude_evaluations': 6}
 ANCHOR_FUNCS = {
     'xlcalculator/xlfunctions/logical.py': ['IF', 'AND', 'OR', 'NOT'],
     'xlcalculator/ast_nodes.py': ['FunctionNode.eval'],
@@ -123,8 +124,12 @@ class G:
             args = []
             for _ in range(n):
                 if self.rng.random() < 0.2:
+                    # the range spelt relative, absolute or mixed ($)
                     args.append(('rng', None, 1, 1, 1, self.rng.randint(1, 4),
-                                 F4))
+                                 self.rng.choice([F4, F4, (True,) * 4,
+                                                  (False, True, False, True),
+                                                  (True, False, True,
+                                                   False)])))
                 else:
                     args.append(self.spy(self.cond(depth)))
             return ('call', self.rng.choice(['AND', 'OR']), args)
@@ -614,6 +619,44 @@ def run(ctx):
                                   'observed': got},
                                  monitor='lazy-selection',
                                  group=f'two-sheets:{fn}:{where}')
+
+    # ---- functions nested 20-60 levels deep (Excel allows 64): the innermost
+    # condition decides ------------------------------------------------------
+    if ctx.shard in (8, 9) or thorough:
+        for depth in (10, 20, 33, 40, 60):
+            for inner in (True, False):
+                cells = {'A1': inner, 'A2': True, 'A3': False}
+                nest_if = 'A1'
+                for k in range(depth):
+                    nest_if = f'IF(A2,{nest_if},{k})'
+                nest_not = 'A1'
+                for k in range(depth if depth % 2 == 0 else depth + 1):
+                    nest_not = f'NOT({nest_not})'
+                nest_andor = 'A1'
+                for k in range(depth):
+                    nest_andor = (f'AND(A2,{nest_andor})' if k % 2 == 0
+                                  else f'OR(A3,{nest_andor})')
+                nest_plus = 'A1'
+                for k in range(min(depth, 30)):
+                    nest_plus = f'(0+IF(A2,{nest_plus},9))'
+                probes = {f'={nest_if}': ('bool', inner),
+                          f'={nest_not}': ('bool', inner),
+                          f'={nest_andor}': ('bool', inner),
+                          f'=IF({nest_andor},"y","n")':
+                              ('text', 'y' if inner else 'n'),
+                          f'={nest_plus}': ('num', 1.0 if inner else 0.0)}
+                outs = subject.eval_batch(list(probes), cells)
+                for (text, want), got in zip(probes.items(), outs):
+                    ctx.event('deep_nesting_cases')
+                    ctx.case(('deep-nesting', depth, inner, text[:6]))
+                    if got != ('value', want):
+                        ctx.fail(f'{text[:50]}... ({depth} levels of nesting, '
+                                 f'innermost condition {inner}): observed '
+                                 f'{str(got)[:200]}, expected {want}',
+                                 {'levels': depth, 'formula': text[:300],
+                                  'observed': str(got)[:300]},
+                                 monitor='lazy-selection',
+                                 group=f'deep-nesting:{text[1:4]}:{got[0]}')
 
     # ---- long ranges: the deciding element comes after more than 100 elements
     # that are FALSE / 0 (values, not blanks) --------------------------------
